@@ -14,6 +14,7 @@ DOC = {
 }
 # ACL list reads are not in the property's list of endpoints
 SKIP_FAMILIES = {"acl-tokens", "acl-policies"}
+WEAK_FAMILIES = {"connect-service-nodes", "health-connect", "service-dump-kind"}
 
 
 def cmd_kind(desc):
@@ -66,12 +67,49 @@ def run(tier):
                     if fam.split("@")[0] in SKIP_FAMILIES:
                         continue
                     hits[nm] = hits.get(nm, 0) + 1
-                    sig = "%s:%s:%s:%s" % (PID, pred, fam, cmd_kind(e["desc"]))
+                    # Connect reads and the by-kind dump take their index from the destination / kind index entry only
+                    # (recorded known finding, whole family); every other family is reported per predicate and command
+                    if fam.split("@")[0] in WEAK_FAMILIES:
+                        sig = "%s:weak-index:%s" % (PID, fam.split("@")[0])
+                    else:
+                        sig = "%s:%s:%s:%s" % (PID, pred, fam, cmd_kind(e["desc"]))
                     bad = [o for o in e["obs"] if o["fam"] == fam][:2]
                     verdict.add(sig, "%s on %s across '%s' (history %d entry %d): %s" % (pred, fam, e["desc"], e["h"], e["i"], json.dumps(bad)[:300]),
                                 {"kind": "fsm-log", "mode": "c06", "log": log[:e["i"]], "predicate": pred, "family": fam})
+        # loop half: the blocking-query loop itself. Model: spec/BlockingQuery.tla (all read histories obeying the index
+        # contract x all interleavings of write / pass / wake / timeout / abandon). Binding: REAL blocking RPCs against a
+        # real single-node server (agent/blockingquery + Server.SetQueryMeta + every endpoint's query function).
+        bq = vf.tlc_mc("BlockingQuery", "BlockingQuery_mc.cfg", timeout=1200, workers=min(8, vf.NCPU))
+        bqbin = vf.build("h-bq")
+        bn, blen = (3, 26) if tier == "quick" else (8, 70)
+        tpb = os.path.join(work, "bq.ndjson")
+        pr = vf.run_harness(bqbin, ["-seed", str(seed), "-n", str(bn), "-len", str(blen), "-T", "4000", "-out", tpb], timeout=7200)
+        if pr.returncode != 0:
+            raise vf.Infra("h-bq failed: %s" % pr.stderr[-2000:])
+        bmeta = json.loads(pr.stdout.strip().splitlines()[-1])
+        rb = vf.tlc_validate("BlockingQueryTrace", "BlockingQueryTrace.cfg", tpb, nevents=bmeta["events"], timeout=3000)
+        brows = vf.read_ndjson(tpb)
+        bq_changed = sum(1 for e in brows for o in e["reads"] if o["r0"] != o["r1"])
+        bq_calls = sum(len(e["reads"]) for e in brows)
+        bq_ambiguous = sum(1 for e in brows for o in e["reads"] if o["r0"] != o["r1"] and 0.8 * e["T"] <= o["ms"] < e["T"])
+        for line, names in rb.rejects:
+            e = brows[line - 1]
+            for nm in names:
+                pred, fam = nm.split(":", 1)
+                if fam in WEAK_FAMILIES:
+                    sig = "%s:weak-index:%s" % (PID, fam)
+                else:
+                    sig = "%s:bq:%s:%s" % (PID, pred, fam)
+                hits["bq:" + nm] = hits.get("bq:" + nm, 0) + 1
+                bad = [o for o in e["reads"] if o["fam"] == fam and (o["r0"] != o["r1"] or o["ms"] < 0.8 * e["T"])][:2]
+                verdict.add(sig, "blocking RPC: %s on %s across '%s': %s" % (pred, fam, e["desc"], json.dumps(bad)[:400]),
+                            {"kind": "bq", "seed": seed, "n": bn, "len": blen, "event": line, "predicate": pred, "family": fam, "desc": e["desc"]})
+        if bq_changed < 40:
+            raise vf.Infra("vacuity: only %d parked calls saw their read change" % bq_changed)
         n_new = verdict.finish()
-        cov = {"states": m.distinct, "transitions": m.generated, "traces_validated_against_impl": n_hist, "samples": samples,
+        cov = {"blocking_rpc": {"servers": bn, "writes": bmeta["events"], "parked_calls": bq_calls, "parked_calls_whose_read_changed": bq_changed,
+                                "ambiguous_timing_not_judged": bq_ambiguous, "model_states": bq.distinct, "model_transitions": bq.generated},
+               "states": m.distinct + bq.distinct, "transitions": m.generated + bq.generated, "traces_validated_against_impl": n_hist, "samples": samples,
                "evaluations": n_events * nq, "distinct_nontrivial": len(changed),
                "rule": "around every command of seeded logs over every FSM command type the whole read battery (%d reads over every endpoint family of the "
                        "property, local and one peer) is evaluated before and after, each read with its own WatchSet; TLC judges every read whose index or "
